@@ -59,6 +59,8 @@ type World struct {
 	StallFor   time.Duration // duration of a stall
 	ErrEvery   int           // >0: every n-th stdout write fails with EAGAIN (nothing written)
 	FailedOut  []WriteRec    // the writes that failed
+	ErrStallEvery int           // >0: every n-th error-level log entry takes ErrStallFor (a slow log sink)
+	ErrStallFor   time.Duration
 	nOut       int
 }
 
@@ -317,8 +319,14 @@ func (c *recCore) Write(ent zapcore.Entry, fields []zapcore.Field) error {
 		}
 		w.mu.Lock()
 		w.Errs = append(w.Errs, rec)
+		stall := w.ErrStallEvery > 0 && len(w.Errs)%w.ErrStallEvery == 0 && simrt.IsScheduled()
+		d := w.ErrStallFor
 		w.mu.Unlock()
 		simrt.Event("stderr.error")
+		if stall {
+			simrt.Fault("stderr-stall")
+			simrt.Sleep("stderr.stall", d)
+		}
 	}
 	return c.Core.Write(ent, fields)
 }
